@@ -5,13 +5,13 @@
    value appended) through schema.ValidateSchema and schema.AddDefaults and logs
    one event per tree:
      [sid, d, errs, deco1, deco2, after, errs2]
-        errs = the errors decoded to [k, n, path]; deco1 / deco2 = walk of AddDefaults applied
+        errs = the errors decoded to [t, path, k, n] (type class and Path; k, n optional); deco1 / deco2 = walk of AddDefaults applied
         once / twice; then, on the SAME tree object, after = walk of the explicit tree again,
         errs2 = ValidateSchema again.
    The event must be what the specification prescribes:
      verdict     errors are reported iff Violations # {}
-     spurious    every reported error is a violation of the tree
-     unreported  every violation in MustReport is reported
+     spurious    every reported error stands for a violation of the tree (per type and path, counted)
+     unreported  every violation in MustReport is reported (per type and path, counted)
      decorate    deco1 = Decorate(d) (modulo empty non-presence containers)
      twice       deco2 = the same tree
      explicit-altered   after = d: Decorate is a view, the explicit tree is what it was
@@ -25,9 +25,36 @@ SchemaOf(sid) == Schemas[CHOOSE i \in 1..Len(Schemas) : Schemas[i].id = sid].kid
 
 RECURSIVE ToSet(_)
 ToSet(kids) == {D(kids[i].name, kids[i].vals, ToSet(kids[i].kids)) : i \in 1..Len(kids)}
-\* how an error identifies its node: the error for a mandatory choice does not name the
-\* choice; a cardinality error carries the schema path (no list entry names)
-NoChoiceName(v) == [k |-> v.k, n |-> IF v.k = "choice" THEN "" ELSE v.n, path |-> IF v.k = "count" THEN v.sp ELSE v.path]
+\* ---- reported errors against the violation sets, independent of message wording ----
+\* A decoded error is [t, path, k, n]: t / path from the error's type and Path field (VKey says
+\* which violations such an error can stand for); k, n only when the message matched a known
+\* wording (optional refinement, "" otherwise).  Per key the errors are counted: more errors
+\* than violations = spurious, fewer than MustReport = unreported; a refined error must find a
+\* violation of its class (missing: same node), unrefined errors stand for any violation of the key.
+ErrKey(x) == [t |-> x.t, path |-> x.path]
+Cls(k, n) == [k |-> k, n |-> IF k = "missing" THEN n ELSE ""]
+JudgeErrs(viol, must, errs) ==
+  LET I          == 1..Len(errs)
+      keys       == {VKey(v) : v \in viol} \cup {ErrKey(errs[i]) : i \in I}
+      obs(K)     == {i \in I : ErrKey(errs[i]) = K}
+      ref(K)     == {i \in obs(K) : errs[i].k # ""}
+      classes(K) == {Cls(v.k, v.n) : v \in {w \in viol : VKey(w) = K}} \cup {Cls(errs[i].k, errs[i].n) : i \in ref(K)}
+      nRef(K, c) == Cardinality({i \in ref(K) : Cls(errs[i].k, errs[i].n) = c})
+      nIn(S, K, c) == Cardinality({v \in S : VKey(v) = K /\ Cls(v.k, v.n) = c})
+      spur(K)    == \/ Cardinality(obs(K)) > Cardinality({v \in viol : VKey(v) = K})
+                    \/ \E c \in classes(K) : nRef(K, c) > nIn(viol, K, c)
+      \* MustReport violations no refined error of their class stands for need an unrefined one
+      left(K)    == UNION {{<<c, j>> : j \in (nRef(K, c) + 1)..nIn(must, K, c)} : c \in classes(K)}
+      unrep(K)   == Cardinality(left(K)) > Cardinality(obs(K) \ ref(K))
+      bad        == IF (Len(errs) = 0) # (viol = {}) THEN "verdict"
+                    ELSE IF \E K \in keys : spur(K) THEN "spurious"
+                    ELSE IF \E K \in keys : unrep(K) THEN "unreported" ELSE ""
+      K1         == IF bad = "spurious" THEN CHOOSE K \in keys : spur(K)
+                    ELSE IF bad = "unreported" THEN CHOOSE K \in keys : unrep(K)
+                    ELSE IF keys # {} THEN CHOOSE K \in keys : TRUE ELSE [t |-> "none", path |-> << >>]
+      kinds      == {v.k : v \in {w \in viol : VKey(w) = K1}}
+  IN [bad |-> bad, t |-> K1.t, path |-> K1.path,
+      k |-> IF Cardinality(kinds) = 1 THEN CHOOSE k \in kinds : TRUE ELSE IF kinds = {} THEN "none" ELSE "several"]
 
 \* the nodes of a tree as [path, vals]
 RECURSIVE Flat(_, _)
@@ -57,27 +84,22 @@ TInit == l = 1 /\ nfail = 0
 Judge(e) ==
   LET sch  == SchemaOf(e.sid)
       d    == ToSet(e.d)
-      viol == {NoChoiceName(v) : v \in Violations(sch, d)}
-      must == {NoChoiceName(v) : v \in MustReport(sch, d)}
-      errs == {[k |-> e.errs[i].k, n |-> e.errs[i].n, path |-> e.errs[i].path] : i \in 1..Len(e.errs)}
-      ers2 == {[k |-> e.errs2[i].k, n |-> e.errs2[i].n, path |-> e.errs2[i].path] : i \in 1..Len(e.errs2)}
+      viol == Violations(sch, d)
+      must == MustReport(sch, d)
+      j1   == JudgeErrs(viol, must, e.errs)
+      j2   == JudgeErrs(viol, must, e.errs2)
       aft  == ToSet(e.after)
       deco == Prune(sch, Decorate(sch, d))
       g1   == Prune(sch, ToSet(e.deco1))
       g2   == Prune(sch, ToSet(e.deco2))
-      vbad == IF (errs = {}) # (viol = {}) THEN "verdict"
-              ELSE IF ~(errs \subseteq viol) THEN "spurious"
-              ELSE IF ~(must \subseteq errs) THEN "unreported"
-              ELSE IF (ers2 = {}) # (viol = {}) \/ ~(ers2 \subseteq viol) \/ ~(must \subseteq ers2) THEN "verdict-changed" ELSE ""
+      vbad == IF j1.bad # "" THEN j1.bad ELSE IF j2.bad # "" THEN "verdict-changed" ELSE ""
+      jj   == IF j1.bad # "" THEN j1 ELSE j2
       dbad == IF g1 # deco THEN "decorate" ELSE IF g2 # deco THEN "twice"
               ELSE IF aft # d THEN "explicit-altered" ELSE ""
-      v1   == IF vbad = "verdict-changed" THEN [k |-> "after-decorate", n |-> "", path |-> << >>]
-              ELSE IF vbad = "spurious" THEN CHOOSE v \in errs \ viol : TRUE
-              ELSE IF vbad = "unreported" THEN CHOOSE v \in must \ errs : TRUE
-              ELSE IF viol # {} THEN CHOOSE v \in viol : TRUE ELSE [k |-> "none", n |-> "", path |-> << >>]
   IN [vbad |-> vbad, dbad |-> dbad, sid |-> e.sid, d |-> e.d,
-      vk |-> IF vbad = "" THEN "" ELSE v1.k, vn |-> IF vbad = "" THEN "" ELSE v1.n,
-      wantviol |-> viol, goterrs |-> errs,
+      vk |-> IF vbad = "" THEN "" ELSE jj.k, vt |-> IF vbad = "" THEN "" ELSE jj.t, vpath |-> IF vbad = "" THEN << >> ELSE jj.path,
+      wantviol |-> {[k |-> v.k, n |-> v.n, path |-> v.path] : v \in viol},
+      goterrs |-> IF j1.bad # "" \/ vbad = "" THEN e.errs ELSE e.errs2,
       diff |-> IF dbad = "" THEN [what |-> "", inchoice |-> FALSE, leaf |-> << >>]
                ELSE IF dbad = "explicit-altered" THEN DecoDiff(sch, d, d, aft)
                ELSE DecoDiff(sch, d, deco, IF dbad = "decorate" THEN g1 ELSE g2),
